@@ -256,6 +256,13 @@ func init() {
 		in.extra["unhashed-used"] = true
 		return nil
 	})
+	reg(vxPkg+"GoroutineID", func(in *Interp, c *Frame, fn *ssa.Function, a []Value) Value {
+		id := 0
+		if in.sch != nil && in.sch.cur != nil {
+			id = in.sch.cur.id
+		}
+		return in.st.Const(64, uint64(id))
+	})
 	reg(vxPkg+"RealPools", func(in *Interp, c *Frame, fn *ssa.Function, a []Value) Value {
 		in.realPools = true
 		return nil
